@@ -168,9 +168,18 @@ def run_case(case, ctx):
         ctx.count("non-constant-field")
     dx0 = SPACINGS[dim][0]
     g0 = make_grid(shape, dx0, 0.0)
-    k, S = gsf(ScalarField(g0, f), smoothing=None)
+    fld = ScalarField(g0, f)
+    before = fld.data.tobytes()
+    k, S = gsf(fld, smoothing=None)
     ctx.op()
     S = np.asarray(S)
+    # the analysed field is the caller's: it must not be modified, and analysing the same object again gives the same answer
+    k_again, S_again = gsf(fld, smoothing=None)
+    _, S_sm1 = gsf(fld, smoothing="auto", wave_numbers=[1.0, 2.0])
+    _, S_sm2 = gsf(fld, smoothing="auto", wave_numbers=[1.0, 2.0])
+    ctx.op(3)
+    ctx.check("C16.input-unmodified", fld.data.tobytes() == before and np.array_equal(np.asarray(S_again), S) and np.array_equal(np.asarray(k_again), np.asarray(k))
+              and np.array_equal(np.asarray(S_sm1), np.asarray(S_sm2)), {"field_changed": fld.data.tobytes() != before})
     n1 = f.size - 1
     ctx.check("C16.shape", S.shape == (n1,) and np.shape(k) == (n1,), {"S": S.shape, "k": np.shape(k)})
     if S.shape != (n1,):
@@ -298,4 +307,4 @@ def run_case(case, ctx):
 
 def expected_positive(tier):
     return ["C16.nonneg", "C16.parseval", "C16.dft-definition", "C16.k-grid", "C16.k-scaling", "C16.scale", "C16.shift", "C16.reflect",
-            "C16.reflect-multiset", "C16.permute", "C16.add-zero", "C16.smooth-k", "C16.smooth-invariance", "non-constant-field", "grid-sequences"]
+            "C16.reflect-multiset", "C16.permute", "C16.add-zero", "C16.smooth-k", "C16.smooth-invariance", "C16.input-unmodified", "non-constant-field", "grid-sequences"]
